@@ -61,7 +61,8 @@ def _replay_group(g):
     first = None
     # the rule is invariant under x -> a*x + b; both variants are exact in binary64 (dyadic a, small integers)
     # ... and the same integer layout stored as an int64 array (the property quantifies over arrays of points)
-    variants = [("grid", [float(v) for v in x]), ("affine", [0.25 * v + 100.0 for v in x]), ("int64", [int(v) for v in x])]
+    variants = [("grid", [float(v) for v in x]), ("affine", [0.25 * v + 100.0 for v in x]), ("int64", [int(v) for v in x]),
+                ("tiny", [v * 2.0 ** -40 for v in x])]      # the whole layout within 1e-11 (exact scaling): the rule is scale invariant
     if g["link"] in ("single", "complete"):
         # integer abscissae beyond 2^53 (nanosecond timestamps): gaps and range are exact in int64, not in binary64
         variants.append(("int64-big", [int(v) + 2 ** 60 for v in x]))
